@@ -165,25 +165,25 @@ EXTRA = {
  "C04": "all-pairs-store path check of Optimize rows; operand-order check of compiler.or",
  "C05": "scratch-histogram reset analysis; loop-bound check of the bit-set scans; option-key to field map; same-name plumbing of lalr.Options; default-table fallback at every decode site of the generated parsers",
  "C06": "trailing-nullable component of the rule-class key; cast-action key coverage; seen-set de-duplication of remapped marker states; final-state guard; lock-step of the two rule copies; injectivity of lookahead-row signature elements; memo-key agreement with generated lookahead()",
- "C07": "lost-write analysis of range copies (trie minimisation); phase coverage of terminal-transition follow sets; exhaustion of collecting loops; who-may-call rule for Lexer.Next",
+ "C07": "lost-write analysis of range copies (trie minimisation); phase coverage of terminal-transition follow sets; exhaustion of collecting loops; who-may-call rule for Lexer.Next; propagation of unresolved trie nodes; loop-carried scratch copy of deep lookahead; scan-termination sibling check of lookahead rows",
  "C08": "decision-table extraction of pickLookahead (120 polarity sequences) and of ruleAction's planner branch; memo-key agreement",
  "C10": "finite-state exploration of in-place range filters (len(out)-i); call-order of class assembly; Offset/Column lock-step",
- "C11": "reserved-token constant agreement of canInlineRules; stale-offset check of rewind; reader/writer agreement of the compressed rune map; checkpoint reset on every edge into the scan loop",
- "C12": "cursor step discipline; reader/writer agreement of the compressed rune map; checkpoint reset",
+ "C11": "reserved-token constant agreement of canInlineRules; stale-offset check of rewind; reader/writer agreement of the compressed rune map; checkpoint reset on every edge into the scan loop; declaration-implies-maintenance formulas for line/lineOffset in the lexer template; end-of-input cycle check of the generator; single-line token comments",
+ "C12": "cursor step discipline; reader/writer agreement of the compressed rune map; checkpoint reset; declaration-implies-maintenance formulas for line/lineOffset; end-of-input cycle check of the generator",
  "C13": "terminal-boundary comparison audit; separator placement under the recursion flag; path guard of dropped Empty children",
  "C14": "scratch bit-set reset scopes; name-based provenance of Arg.TakeFrom; path guard of dropped Empty children; terminal-boundary comparison audit (48 sites); wrapper order of convertRules; escape analysis through callees that retain slices; renumbering coverage",
  "C15": "all-paths reachability of the set-contribution test; first-match shape of the input seeding loop; copy-source guard of named-set slots",
- "C16": "marker-free remap counter; Pos coverage of extracted references; sharing-key and renumbering field coverage",
- "C17": "free-name guard of the synthetic TokenSet category; once-per-key emission of Go declarations; interning-pair rule; decision-table agreement of NeedsSession with the template's session struct; all-paths enumeration of file selection against template imports; call/definition arity agreement on template trees",
+ "C16": "marker-free remap counter; Pos coverage of extracted references; sharing-key and renumbering field coverage; comma-ok discipline of ActionVars.Remap; name propagation out of nested groups",
+ "C17": "free-name guard of the synthetic TokenSet category; once-per-key emission of Go declarations; interning-pair rule; decision-table agreement of NeedsSession with the template's session struct; all-paths enumeration of file selection against template imports; call/definition arity agreement on template trees; template guard-formula rules for struct fields, node type identifiers and predicate chains (all truth assignments of the option atoms)",
  "C18": "global map aliased through struct fields; mutating methods of sync containers held in package-level variables; ordered-comparison requirement for comparators that discharge a map iteration",
- "C19": "constant propagation of stream.recoveryMode; histogram reset range; end-of-input guard of the token-skipping loop",
+ "C19": "constant propagation of stream.recoveryMode; histogram reset range; end-of-input guard of the token-skipping loop; nil-stack guard of the js token stream",
  "C20": "must-write analysis of Init (and of parse() for Parser) for every run-state field of Lexer/Parser/TokenStream",
  "C21": "fresh-backing-array analysis of copied field records; child test of addNode; save/restore dominance; sibling check of the two Tarjan implementations; unconditional rule-class key components",
- "C22": "lookup-index guard; in-progress memo reachability and mark-before-descend dominance; valid-anchor guard for optional nodes; Origin coverage of every syntax.Expr literal",
+ "C22": "lookup-index guard; in-progress memo reachability and mark-before-descend dominance; valid-anchor guard for optional nodes; Origin coverage of every syntax.Expr literal; next-element bound of range loops; sentinel inside the follow-set universe",
  "C23": "source-cursor bounds of the grammar lexer; sentinel-index guards in verbose conflict explanations; memoised recursions of the compiler; no success return of a change handler bypasses typecheck",
  "C25": "in-place merge exploration; min-update idiom and Tarjan sibling checks",
  "C28": "explicit-id path check; non-empty return analysis of ident.Produce; identifier-level freshness of extracted mid-rule nonterminals",
- "C29": "must-return of parser errors in ast.Parse; monotonicity of the poll counter; identity of the error handler handed to the parser; use-only-in-return of ctx.Err(); check-before-use of results that come with a cancellation error",
+ "C29": "must-return of parser errors in ast.Parse; monotonicity of the poll counter; identity of the error handler handed to the parser; use-only-in-return of ctx.Err(); check-before-use of results that come with a cancellation error; error-before-next-predicate on the template's lookahead chains",
  "C30": "three-copy agreement of %prec; Reference literals carry Model; kinds reaching ExprString; token-ID vs nonterminal-name namespace check",
 }
 
